@@ -206,3 +206,24 @@ PROPS['C06'] = dict(
     technique='reference-model monitor (composition of civil and tz models) + invariant monitor on every produced value; release + debug-assertion builds',
     design_ref='DESIGN.md section 4, C06',
 )
+
+PROPS['C07'] = dict(
+    sub='c07',
+    prep=['synth'],
+    quick=[S('rel'), S('dbg')],
+    thorough=[S('rel'), S('dbg')],
+    rule='seeded ordered pairs (a, b) for Date, DateTime, Time, Timestamp (biased to month ends, leap days, equal or crossing times of day, +-40/+-800 days apart, range limits) and Zoned in one zone '
+         '(a rotating 1/7 sample of the C03 corpus + all hand-written synthetic zones + fixed POSIX strings; instants within +-2.3 days of transitions, same wall-clock time on other days, far apart) x every Unit as largest (and the default). '
+         'Laws checked with jiff\'s own checked_add: a + until == b; all non-zero units share the sign of b - a; nothing above largest; sub-unit bounds (|min| < 60 ...); '
+         'behavioural balance for day/week/month/year: the span truncated at that unit does not pass b and one more of the unit does; since == -until; duration_until/since == exact ns distance; no panics. '
+         'distinct_nontrivial = distinct (a, b, largest) for Date, DateTime and every second zoned pair',
+    floors={'quick': {'evaluations': 20000000, 'zones': 100, 'zoned_pairs': 1000000}, 'thorough': {'evaluations': 500000000, 'zones': 500}},
+    assumptions=COMMON_ASSUME + TZ_ASSUME[2:3] + [
+        'a difference that exceeds a Span unit limit (e.g. > 292 years in nanoseconds) is a documented error, tolerated',
+        'balance of months/years is not judged when a\'s day of month is 29-31 (Temporal counts a clamped month as not completed), nor when the landing wall-clock time is inside a gap or fold (whole days are counted on the wall clock)',
+        'largest units a type does not permit must not panic; whether they are refused is not part of the statement'],
+    level_text='Metamorphic monitoring of the real difference routines in both build modes: reversibility through the (independently monitored) addition, sign/unit-bound/balance laws and exact absolute distances on millions of boundary-biased pairs per run, including pairs straddling DST transitions in hundreds of zones.',
+    level_note='Trusted base: jiff\'s checked_add (policed by C06/C08), i128 distances, the tz/civil models only to decide where the balance law is not judged.',
+    technique='metamorphic-law monitor (a + until == b, sign, balance, since = -until, exact distance) over seeded pairs; release + debug-assertion builds',
+    design_ref='DESIGN.md section 4, C07',
+)
